@@ -59,6 +59,13 @@ func (fs *RepositoryFilesystem) mapToRepositoryFsByPath(path string) billy.Files
 		return fs.dotGitFs
 	}
 
+	// The temporary file that a packed-refs rewrite renames over packed-refs is
+	// shared as well, wherever the filesystem places it (e.g. a .tmp directory):
+	// otherwise the rename publishes it in the worktree's private directory.
+	if strings.HasPrefix(filepath.Base(cleanPath), tmpPackedRefsPrefix) {
+		return fs.commonDotGitFs
+	}
+
 	// Determine dot-git root by first path element.
 	// There are some elements which should always use commondir when commondir defined.
 	// Usual dot-git root will be used for the rest of files.
@@ -107,7 +114,7 @@ func (fs *RepositoryFilesystem) Join(elem ...string) string {
 
 // TempFile creates a temporary file in the appropriate filesystem.
 func (fs *RepositoryFilesystem) TempFile(dir, prefix string) (billy.File, error) {
-	return fs.mapToRepositoryFsByPath(dir).TempFile(dir, prefix)
+	return fs.mapToRepositoryFsByPath(filepath.Join(dir, prefix)).TempFile(dir, prefix)
 }
 
 // ReadDir reads a directory from the appropriate filesystem.
